@@ -1438,6 +1438,19 @@ fn wake_send_waiters<T>(waiters: &mut LinkedList<SendWaitQueueEntry<T>>) {''',
      'old': '        } else {\n            Err(TryReceiveError::Empty)',
      'new': '        } else {\n            Err(TryReceiveError::Closed)',
      'expect': {'C11': ['C11.R8']}},
+    {'name': 'fixedbuf-push-stores-before-capacity-assert', 'file': 'src/buffer/ring_buffer.rs',
+     'old': '            assert!(self.can_push());\n            self.buffer.push_back(value);',
+     'new': '            self.buffer.push_back(value);\n            assert!(self.can_push());',
+     'expect': {'C19': ['C19.R4'], 'C09': ['C09.R6']}},
+    # batch 10 (concurrency-shaped seeds) as regression cases of the rules they produced
+    {'name': 'seed-last-handles-each-skip-close', 'patch': 'seeded/C11-last-handles-each-skip-close-when-other-side-gone/patch.diff',
+     'expect': {'C11': ['C11.R5']}},
+    {'name': 'seed-stream-ends-when-sender-count-is-zero', 'patch': 'seeded/C17-stream-ends-when-sender-count-is-zero/patch.diff',
+     'expect': {'C17': ['C17.R5']}},
+    {'name': 'seed-set-wakes-waiters-one-lock-at-a-time', 'patch': 'seeded/C14-set-wakes-waiters-one-lock-at-a-time/patch.diff',
+     'expect': {'C14': ['C14.W']}},
+    {'name': 'seed-first-poll-enqueues-under-second-lock', 'patch': 'seeded/C06-first-poll-enqueues-under-second-lock/patch.diff',
+     'expect': {'C06': ['C06.W'], 'C05': ['C05.W']}},
 ]
 
 ALLP = ['C01','C02','C03','C04','C05','C06','C07','C08','C09','C10','C11','C12','C13','C14','C15','C17','C18','C19','C20']
@@ -1752,6 +1765,9 @@ impl<'a, MutexType, T> FusedFuture for ChannelReceiveFuture<'a, MutexType, T> {'
     {'name': 'benign-refactor-RF26-oneshot-broadcast-4', 'props': ALLP + ['C16'], 'patch': 'benign/RF26/patch.diff'},
     {'name': 'benign-refactor-RF27-state-broadcast-4', 'props': ALLP + ['C16'], 'patch': 'benign/RF27/patch.diff'},
     {'name': 'benign-refactor-RF28-list-heap-buffers-4', 'props': ALLP + ['C16'], 'patch': 'benign/RF28/patch.diff'},
+    {'name': 'benign-refactor-RF29-semaphore-first-poll-one-lock', 'props': ALLP + ['C16'], 'patch': 'benign/RF29/patch.diff'},
+    {'name': 'benign-refactor-RF30-stream-fast-path-closed-verdict', 'props': ALLP + ['C16'], 'patch': 'benign/RF30/patch.diff'},
+    {'name': 'benign-refactor-RF31-last-sender-leaves-close-to-receiver', 'props': ALLP + ['C16'], 'patch': 'benign/RF31/patch.diff'},
     {'name': 'benign-unrelated-additions', 'props': ALLP, 'edits': [
         {'file': 'src/sync/semaphore.rs',
          'old': '''    /// Returns the amount of permits that are available on the semaphore
